@@ -2203,3 +2203,197 @@ for _sp in [close_send, discard_recv, flush_send, flush_recv, chan_close, chan_a
             sftp_send_packet] + list(cancel_timer_specs.values()) + UNBLOCK_DRAIN_SPECS:
     if _sp.modifies is not None:
         _sp.always.append(frame_clause(_sp))
+
+
+# ------------------------------------------------------------------------------------------------
+# Queue of *received* global requests (_global_request_queue): every queued request is eventually serviced.
+#   Q  whenever the queue is non-empty its head - and only its head - has been started (handler called or the
+#      immediate failure reported): started - completed == (1 if queue else 0), completed = appended - len(queue).
+#      So when a request completes and the queue is non-empty the next one is started, whatever want_reply was.
+#   R  one reply per request that asked for one: replies sent + replies still owed by queued requests
+#      == number of queued-so-far requests with want_reply.
+#   FIFO: requests complete from the front only (the queue after a step is a suffix of the queue before), so the
+#      replies go out in arrival order.
+# _report_global_response and _service_next_global_request are mutually recursive: each is verified against the
+# other's contract (partial correctness; the recursion depth is bounded by the queue length because every
+# _report_global_response pops one entry: clause `fifo` is strict).
+GQE = 'tuple[opt[opaque:Handler],opaque:Pkt,bool]'     # (handler, packet, want_reply)
+GQ_T = 'seq[' + GQE + ']'
+GQ_FIELDS = {
+    '_global_request_queue': GQ_T,
+    'ghost_gq_appended': 'int',       # requests ever queued
+    'ghost_gq_started': 'int',        # requests whose servicing has started
+    'ghost_gq_replies': 'int',        # REQUEST_SUCCESS / REQUEST_FAILURE packets sent
+    'ghost_gq_wanted': 'int',         # requests ever queued with want_reply
+}
+GQ_CLASSES = dict({'SSHConnection': GQ_FIELDS}, **PACKET_CLASSES)
+GQ_MOD = ['_global_request_queue', 'ghost_gq_started', 'ghost_gq_replies']
+gq_wanted = z3.Function('gq_wanted', sort_of(GQ_T), IntS)     # how many entries ask for a reply (recursive; instances)
+
+
+def gq_want(elem):
+    return from_z3(elem, GQE).items[2].z
+
+
+def gq_cons_instance(q):
+    """definition of gq_wanted at q = [h] ++ t (and at the empty list)"""
+    n = z3.Length(q)
+    return z3.And(gq_wanted(z3.Empty(q.sort())) == 0,
+                  z3.Implies(n > 0, gq_wanted(q) == b2i(gq_want(q[0])) + gq_wanted(z3.Extract(q, z3.IntVal(1), n - 1))))
+
+
+def gq_setup(ex, st):
+    st.assume(gq_cons_instance(ex.get_field(st, ex.self_ref, '_global_request_queue').z))
+
+
+def gq_completed(g):
+    return g('ghost_gq_appended') - z3.Length(g('_global_request_queue'))
+
+
+def gq_Q(c, new=False):
+    g = c.new if new else c.old
+    return z3.And(g('ghost_gq_started') - gq_completed(g) == b2i(z3.Length(g('_global_request_queue')) > 0),
+                  gq_completed(g) >= 0)
+
+
+def gq_R(c, new=False):
+    g = c.new if new else c.old
+    return g('ghost_gq_replies') + gq_wanted(g('_global_request_queue')) == g('ghost_gq_wanted')
+
+
+def gq_head(c, started):
+    """queue non-empty and its head has (started=1) / has not yet (started=0) been started"""
+    return z3.And(z3.Length(c.old('_global_request_queue')) > 0,
+                  c.old('ghost_gq_started') - gq_completed(c.old) == started, gq_completed(c.old) >= 0)
+
+
+def gq_suffix(c, strict):
+    q0, q1 = c.old('_global_request_queue'), c.new('_global_request_queue')
+    off = z3.Length(q0) - z3.Length(q1)
+    k = z3.Int(fresh_name('k'))
+    return z3.And(off >= (1 if strict else 0),
+                  z3.ForAll([k], z3.Implies(z3.And(0 <= k, k < z3.Length(q1)), q1[k] == q0[k + off])))
+
+
+def gq_reply_stub(cx):
+    t = concrete_int(cx.args[0])
+    if t in (81, 82):       # MSG_REQUEST_SUCCESS / MSG_REQUEST_FAILURE
+        return [Out(sets={'ghost_gq_replies': bump(cx, 'ghost_gq_replies')}, event=('reply', (cx.args[0],)))]
+    return [Out(event=('packet', tuple(cx.args)))]
+
+
+gq_reply_stub.modifies = ('ghost_gq_replies',)
+
+
+def gq_start_then_report(cx, result, event):
+    """servicing of the head request starts (ghost) and it is completed at once by _report_global_response(result),
+    taken by its contract"""
+    from pyvc.engine import CallCtx
+    started = bump(cx, 'ghost_gq_started')
+    s2 = cx.st.fork()
+    s2.set_field(cx.ex.self_ref, 'ghost_gq_started', started)
+    cx2 = CallCtx(cx.ex, s2, 'self._report_global_response', cx.ex.self_ref, [result], {}, cx.node)
+    outs = contract_stub(lambda: gq_report)(cx2)
+    for o in outs:
+        o.sets.setdefault('ghost_gq_started', started)
+        o.event = event
+    for lab, z in cx2.requires:
+        cx.require('report:' + lab, z)
+    return outs
+
+
+def gq_handler_stub(cx):
+    """handler(packet): servicing of the head request starts.  The handler either finishes later (a task calls
+    _report_global_response when it is done) or reports synchronously before it returns."""
+    ev = ('handler', tuple(cx.args))
+    return [Out(sets={'ghost_gq_started': bump(cx, 'ghost_gq_started')}, event=ev)] + \
+        gq_start_then_report(cx, cx.fresh('any', 'result'), ev)
+
+
+def gq_immediate_failure_stub(cx):
+    """_service_next_global_request -> self._report_global_response(False) for a request nobody handles: reporting
+    the failure IS the servicing of that request"""
+    return gq_start_then_report(cx, cx.args[0], ('immediate_failure', tuple(cx.args)))
+
+
+gq_immediate_failure_stub.modifies = tuple(GQ_MOD)
+gq_immediate_failure_stub.spec_getter = lambda: gq_report
+gq_handler_stub.modifies = tuple(GQ_MOD)
+
+
+def gq_append_stub(cx):
+    """self._global_request_queue.append((handler, packet, want_reply)): list.append with the packet object
+    abstracted to a token; ghost bookkeeping of what has been queued"""
+    h, _p, w = cx.args[0].items
+    q = cx.selff('_global_request_queue')
+    tok = cx.fresh('opaque:Pkt', 'pkt')
+    x = to_z3(VTuple([h, tok, w]), GQE)
+    q2 = z3.Concat(q.z, z3.Unit(x))
+    return [Out(sets={'_global_request_queue': VSeq(q2, GQE),
+                      'ghost_gq_appended': bump(cx, 'ghost_gq_appended'),
+                      'ghost_gq_wanted': VInt(cx.selff('ghost_gq_wanted').z + b2i(w.z))},
+                # definition of gq_wanted at q ++ [x]
+                assume=[gq_wanted(q2) == gq_wanted(q.z) + b2i(w.z)], event=('queued', (w,)))]
+
+
+gq_append_stub.modifies = ('_global_request_queue', 'ghost_gq_appended', 'ghost_gq_wanted')
+
+
+def gq_direct_reply(c):
+    """on the path itself (not counting what the next request's servicing does): exactly one reply iff the
+    completed request asked for one, SUCCESS iff the result is true"""
+    n = len(c.events('reply'))
+    head = c.old('_global_request_queue')[0]
+    conj = [z3.BoolVal(n <= 1), z3.BoolVal(n == 1) == gq_want(head)]
+    for e in c.events('reply'):
+        conj.append((e[1][0].z == 81) == c.truthy(c.argv('result'), c.old_state))
+    return z3.And(*conj)
+
+
+gq_report = Spec(
+    PROP, 'connection', 'SSHConnection._report_global_response', self_class='SSHConnection',
+    params=dict(result='any'), classes=GQ_CLASSES, falsy_sorts={'Any'}, setup=gq_setup,
+    stubs={'self.send_packet': gq_reply_stub,
+           'self._service_next_global_request': contract_stub(lambda: gq_service)},
+    requires=lambda c: z3.And(gq_head(c, 1), gq_R(c)),
+    modifies=GQ_MOD,
+    ensures=[('next-queued-request-is-started-whatever-want-reply-was', lambda c: gq_Q(c, new=True)),
+             ('one-reply-per-request-that-asked', lambda c: gq_R(c, new=True)),
+             ('this-request-answered-iff-it-asked', gq_direct_reply),
+             ('fifo', lambda c: gq_suffix(c, strict=True))],
+    raises={})
+
+gq_service = Spec(
+    PROP, 'connection', 'SSHConnection._service_next_global_request', self_class='SSHConnection',
+    classes=GQ_CLASSES, falsy_sorts={'Any'}, setup=gq_setup,
+    stubs={'callable': lambda cx: VBool(z3.Not(isn(cx.args[0]))), 'handler': gq_handler_stub,
+           'self._report_global_response': gq_immediate_failure_stub},
+    requires=lambda c: z3.And(gq_head(c, 0), gq_R(c)),
+    modifies=GQ_MOD,
+    ensures=[('head-started-or-completed-and-successor-started', lambda c: gq_Q(c, new=True)),
+             ('one-reply-per-request-that-asked', lambda c: gq_R(c, new=True)),
+             ('fifo', lambda c: gq_suffix(c, strict=False))],
+    raises={})
+
+gq_process = Spec(
+    PROP, 'connection', 'SSHConnection._process_global_request', self_class='SSHConnection',
+    params=dict(_pkttype='int', _pktid='int', packet='obj:SSHPacket'), classes=GQ_CLASSES,
+    inline=dict(PACKET_INLINE), truthy=PACKET_TRUTHY, falsy_sorts={'Any'}, setup=gq_setup,
+    stubs={'map_handler_name': ret('str', 'hname'), 'getattr': ret('opt[opaque:Handler]', 'handler'),
+           'self._global_request_queue.append': gq_append_stub,
+           'self._service_next_global_request': contract_stub(lambda: gq_service)},
+    requires=lambda c: z3.And(gq_Q(c), gq_R(c), packet_wf(c, c.argv('packet'))),
+    modifies=GQ_MOD + ['ghost_gq_appended', 'ghost_gq_wanted'],
+    ensures=[('request-queued-exactly-once', lambda c: z3.And(delta(c, 'ghost_gq_appended') == 1,
+                                                              z3.BoolVal(len(c.events('queued')) == 1))),
+             ('head-of-a-non-empty-queue-is-in-service', lambda c: gq_Q(c, new=True)),
+             ('one-reply-per-request-that-asked', lambda c: gq_R(c, new=True))],
+    raises={'ProtocolError': lambda c: z3.BoolVal(len(c.events('queued')) == 0),
+            'PacketDecodeError': lambda c: z3.BoolVal(len(c.events('queued')) == 0)})
+
+ASSUMPTIONS.append(
+    'received-global-request queue: handlers (handler(packet)) either report synchronously through '
+    '_report_global_response (used by its contract) or later from a task; gq_wanted is uninterpreted with '
+    'definitional instances only (empty, cons at entry, snoc at append); the packet stored in a queue entry is '
+    'abstracted to a token; the mutual recursion _report_global_response <-> _service_next_global_request is '
+    'verified for partial correctness (depth bounded by the queue length: every report pops one entry)')
